@@ -69,7 +69,9 @@ def load_one(lit: LineIterator):
             break
         if len(contents) != 4:
             raise LoadError("No Cartesian Structure is detected.", lit)
-        numbers.append(sym2num[contents[0]])
+        # The element label is a (case-insensitive) symbol or an atomic number.
+        label = contents[0]
+        numbers.append(int(label) if label.isdigit() else sym2num[label.title()])
         coor = list(map(float, contents[1:]))
         coordinates.append(coor)
         coord_line = next(lit)
